@@ -16,8 +16,8 @@ LEVEL = "exploration"
 RULE = ("every SDRAMModule subclass of litedram.modules (introspection) x every speedgrade key (incl. default) x DDR4 "
         "fine-refresh modes x rates x controller clocks: a regular kHz grid over 25..400 MHz plus, per declared timing, "
         "the integer-kHz clocks straddling each exact break-point of the ns->cycle ceil (where one lost cycle is visible); "
-        "all SPD images in test/spd_data through SDRAMModule.from_spd_data, the break-points there being computed from "
-        "the values TLC's own SPD decoder returns (spec -> code). One evaluation = one real constructor call judged by TLC "
+        "all SPD images in test/spd_data through SDRAMModule.from_spd_data plus derived images with re-drawn timing bytes, the "
+        "break-points there being computed from the values TLC's own SPD decoder returns (spec -> code). One evaluation = one real constructor call judged by TLC "
         "(R_TimingConv!ConvBad / SpdBad). Non-trivial = a (class, speedgrade, fine-refresh, rate) block for which TLC saw at "
         "least one 'tight' record (lowering a handed minimum by one cycle would break a clause); sums.tight_records counts them.")
 ASSUMPTIONS = [
@@ -158,8 +158,8 @@ def clocks(d, refi, n, p, rnd):
 
 # ------------------------------------------------------------------------------------------------ scenarios
 TIERS = {
-    "quick":    dict(gstep=10000, bpcap=6, nscen=14, rates="valid", spdstep=10000, spdgroups=2),
-    "thorough": dict(gstep=1000, bpcap=0, nscen=96, rates="all", spdstep=500, spdgroups=10),
+    "quick":    dict(gstep=10000, bpcap=6, nscen=14, rates="valid", spdstep=20000, spdgroups=2, spdvar=3),
+    "thorough": dict(gstep=1000, bpcap=0, nscen=96, rates="all", spdstep=500, spdgroups=10, spdvar=24),
 }
 
 
@@ -218,6 +218,50 @@ def _lib_records(sc):
     return lines, meta
 
 
+def spd_variants(data, k, rnd):
+    """The test data's images have, e.g., equal tRAS / tRC upper nibbles and small fine offsets.  Derived images with the
+    timing bytes re-drawn (type, geometry, timebases and tCK untouched, so the real parser still accepts them) make the
+    byte map itself observable.  Stimulus only: TLC decodes every image on its own."""
+    out = []
+    ddr4 = data[2] == 0x0c
+    for _ in range(k):
+        d = list(data)
+        if ddr4:
+            for i in list(range(24, 27)) + list(range(38, 41)):          # one-byte MTB counts
+                d[i] = rnd.randrange(8, 200)
+            for i in (28, 29, 30, 32, 34, 37, 42, 44, 45):               # LSBs of the 12 / 16 bit counts
+                d[i] = rnd.randrange(0, 256)
+            d[27] = rnd.randrange(0, 3)                                  # tRAS upper nibble (tRC is set below)
+            d[31], d[33], d[35] = rnd.randrange(1, 12), rnd.randrange(1, 9), rnd.randrange(1, 6)
+            d[36] = rnd.randrange(0, 2)
+            d[41] = rnd.randrange(0, 2)
+            d[43] = rnd.randrange(0, 2) * 16 + rnd.randrange(0, 2)
+            for i in range(117, 124):                                    # fine offsets, signed
+                d[i] = rnd.choice([0, 1, 5, 50, 127, 128, 200, 250, 255])
+            trc = (d[27] % 16) * 256 + d[28] + d[26]                     # tRCmin = tRASmin + tRPmin (JEDEC identity), same fine offset as tRP
+            d[27] = (trc // 256) * 16 + d[27] % 16
+            d[29] = trc % 256
+            d[120] = d[121]
+        else:
+            for i in (16, 17, 18, 19, 20, 26, 27):
+                d[i] = rnd.randrange(8, 200)
+            for i in (22, 23, 24, 29):
+                d[i] = rnd.randrange(0, 256)
+            d[21] = rnd.randrange(0, 3)
+            d[25] = rnd.randrange(0, 12)
+            d[28] = rnd.randrange(0, 3)
+            div = d[9] % 16
+            for i in range(35, 39):
+                v = rnd.choice([0, 2, 6, 50, 126, 128, 200, 250, 254])
+                d[i] = v if (div == 1 or (v if v < 128 else v - 256) * (d[9] // 16) % div == 0) else 0
+            trc = (d[21] % 16) * 256 + d[22] + d[20]
+            d[21] = (trc // 256) * 16 + d[21] % 16
+            d[23] = trc % 256
+            d[38] = d[37]
+        out.append(d)
+    return out
+
+
 def _spd_module(data, f, frm):
     from litedram.modules import SDRAMModule
     return SDRAMModule.from_spd_data(data, f * 1000, fine_refresh_mode=frm)
@@ -228,13 +272,15 @@ def _spd_records(sc, workdir):
     rnd = random.Random(sc["seed"])
     heads = []
     for image in sc["images"]:
-        data = load_spd_csv(os.path.join(env.REPO, "test", "spd_data", image))
-        mt = {0x0b: "DDR3", 0x0c: "DDR4"}[data[2]]
-        for frm in (["1x", "2x", "4x"] if mt == "DDR4" else [None]):
-            m = _spd_module(data, 100000, frm)
-            sgt = m.speedgrade_timings[m.speedgrade]
-            d, refi = declaration(m.technology_timings, sgt, frm, "spd:" + image)
-            heads.append((image, data, mt, frm, dict(k="S", cls=image, sg=str(m.speedgrade), frm=frm or "1x", mt=mt, d=d, refi=refi, b=data[:256])))
+        base = load_spd_csv(os.path.join(env.REPO, "test", "spd_data", image))
+        mt = {0x0b: "DDR3", 0x0c: "DDR4"}[base[2]]
+        for vi, data in enumerate([base] + spd_variants(base, p["spdvar"], rnd)):
+            for frm in (["1x", "2x", "4x"] if mt == "DDR4" else [None]):
+                m = _spd_module(data, 100000, frm)
+                sgt = m.speedgrade_timings[m.speedgrade]
+                name = image if vi == 0 else "%s#%d" % (image, vi)
+                d, refi = declaration(m.technology_timings, sgt, frm, "spd:" + name)
+                heads.append((name, data, mt, frm, dict(k="S", cls=name, sg=str(m.speedgrade), frm=frm or "1x", mt=mt, d=d, refi=refi, b=data[:256])))
     # pass 1 (spec -> code): TLC decodes the SPD bytes; the clocks are derived from ITS values
     t1 = os.path.join(workdir, "spd_decode.ndjson")
     tlc.write_ndjson(t1, dict(prop="C16", scenario=sc["name"], mode="decode"), [h[4] for h in heads])
@@ -318,7 +364,7 @@ def post(ctx, results, mresults):
         for b in r.get("visited", []):
             (seen.add(tuple(b)) if r.get("kind") == "lib" else None)
         if r.get("kind") == "spd":
-            spd_images |= {b[0] for b in r.get("visited", [])}
+            spd_images |= {b[0] for b in r.get("visited", []) if "#" not in b[0]}
     nspd = len(glob.glob(os.path.join(env.REPO, "test", "spd_data", "*.csv")))
     spd_seen = len(spd_images)
     cover = want <= seen and spd_seen == nspd
